@@ -17,6 +17,7 @@ type Report struct {
 	LoadS, GenS, SolveS, Wall float64
 	V                         *Verifier
 	ReplayDir                 string
+	HarnessDir                string
 	Repo                      string
 	Baseline                  map[string]string
 	Known                     []knownFinding
@@ -118,7 +119,12 @@ func (r *Report) finish(evidPath string, verbose bool) int {
 				continue
 			}
 			inBase := r.Baseline[o.Name] == "proved"
+			var pre *replayResult
 			if o.Status == "unknown" && !inBase {
+				// bounded search with the function's run-time contract before calling it undecided
+				pre = r.tryReplay(o)
+			}
+			if o.Status == "unknown" && !inBase && (pre == nil || !pre.reproduced) {
 				nUnknown++
 				say("UNDECIDED %s: %s (%s) solvers=%v — not in the accepted baseline, not reported as a violation", o.Name, trunc(o.Src, 120), o.Pos, o.Answers)
 				continue
